@@ -12,7 +12,7 @@ class C09Expanding(Scenario):
     def gen_config(self, rng):
         cfg = structs.ExpandingSubject.gen_cfg(rng)
         cfg.update({"steps": rng.between(4, self.max_steps), "pushes": rng.chance(1, 2), "restarts": rng.chance(2, 3),
-                    "universe": rng.choice((6, 12, 30, 60))})
+                    "universe": rng.choice((6, 12, 30, 60)), "neighbour": rng.chance(1, 5)})
         if rng.chance(1, 40):
             # large capacities: the growth rule must not depend on est_elements being small (int identity holds up to
             # 256; percentages rounded to one decimal reach 100.0 early from 2000 on)
